@@ -820,6 +820,9 @@ func (g *gen) tagFor(fieldName string, f *Field) {
 	case x < 14:
 		f.Tag = fmt.Sprintf(`json:"%s-dash" yaml:"y"`, snake)
 		g.p.Feature("tag:json-name-with-dash")
+	case x == 19:
+		f.Tag = fmt.Sprintf(`json:"année-%s-écoulée"`, snake)
+		g.p.Feature("tag:json-name-non-ascii")
 	case x == 18 && !g.usedDashComma:
 		g.usedDashComma = true // the key is the fixed string "-": once per program
 		f.Tag = `json:"-,"`
@@ -885,6 +888,10 @@ func (g *gen) makeStructs() {
 					g.p.Feature("tag:json-name-on-union-field")
 				}
 			}
+			if g.opts.TagRich && j == 1 && i == 2 && g.pr(0.5) {
+				f.Name = "Créé" + fmt.Sprint(j) // Go identifiers may use any letter
+				g.p.Feature("field:non-ascii-name")
+			}
 			if g.opts.Bytes && j == 0 && i == 0 {
 				f.Type = Slice(Basic("byte"))
 				f.Tag = ""
@@ -947,6 +954,23 @@ func reachesSelf(from, target *Decl) bool { return from == target }
 // recursive shapes
 
 func (g *gen) makeRecursive() {
+	if g.pr(0.3) {
+		// cycles made of named types and maps / slices only (no struct on the cycle)
+		ns := g.add(&Decl{Name: g.fresh("Namespace"), Kind: DNamed})
+		ns.Under = Map(Basic("string"), Ref(ns))
+		lv := g.add(&Decl{Name: g.fresh("Nesting"), Kind: DNamed})
+		lv.Under = Slice(Ref(lv))
+		holder := g.add(&Decl{Name: g.fresh("Scope"), Kind: DStruct, Fields: []*Field{{Name: "Spaces", Type: Ref(ns)}, {Name: "Levels", Type: Ref(lv)}}})
+		g.structs = append(g.structs, holder)
+		g.p.Feature("recursive:named-map-and-slice-only")
+		if len(g.unions) > 0 && g.pr(0.6) {
+			// a JSON-like union: a named map of the union is itself a member
+			un := g.unions[g.r.Intn(len(g.unions))]
+			obj := g.add(&Decl{Name: g.fresh(strings.Title(un.Name) + "Object"), Kind: DNamed, Under: Map(Basic("string"), Ref(un))})
+			obj.Impls = append(obj.Impls, &Impl{Union: un})
+			g.p.Feature("recursive:union-member-is-map-of-the-union")
+		}
+	}
 	if g.opts.Pointers {
 		// pointer shapes: linked struct, self-referencing named array of pointers, mutual named arrays
 		n := g.add(&Decl{Name: g.fresh("Linked"), Kind: DStruct})
